@@ -481,6 +481,18 @@ func (qi *QuotaInfo) IsPodExist(pod *v1.Pod) bool {
 	return exist
 }
 
+// isCachedPodUID reports whether the pod cached under the pod's key is the given pod and not
+// a namesake with another UID. Pods without UID are not told apart.
+func (qi *QuotaInfo) isCachedPodUID(pod *v1.Pod) bool {
+	qi.lock.RLock()
+	defer qi.lock.RUnlock()
+	podInfo, exist := qi.PodCache[generatePodCacheKey(pod)]
+	if !exist || podInfo.pod == nil {
+		return false
+	}
+	return podInfo.pod.UID == "" || pod.UID == "" || podInfo.pod.UID == pod.UID
+}
+
 func (qi *QuotaInfo) addPodIfNotPresent(pod *v1.Pod) {
 	qi.lock.Lock()
 	defer qi.lock.Unlock()
